@@ -75,6 +75,7 @@ MUTANTS = {
         ("patch:own-c18-exome-min-coverage",),
         ("patch:own-c18-empty-options-section",),
         ("patch:own-c18-neutral-value-parameter",),
+        ("patch:own-c18-options-ignored-with-user-structure",),
         ("values-kept-as-strings", "aldy/profile.py", "                            self.__dict__[n] = typ(v)", "                            self.__dict__[n] = v"),
         ("precedence-reversed", "aldy/profile.py", '            **dict(prof.get("options", {}), **params),', '            **dict(params, **prof.get("options", {})),'),
         ("options-dropped-on-write", "aldy/profile.py", '                d["options"][k] = v', "                pass"),
@@ -94,6 +95,8 @@ MUTANTS = {
     "C01": [
         ("patch:own-c01-insertion-phase-anchor",),
         ("patch:own-c01-mnp-phase-record",),
+        ("patch:own-c01-read-ends-inside-mnp",),
+        ("patch:own-c06-silent-mnp-not-merged",),
         ("minus-strand-insertion-anchor", "aldy/gene.py", '                        op = f"ins{rev_comp(op[3:])}"\n                        pos += 1', '                        op = f"ins{rev_comp(op[3:])}"'),
         ("deletion-anchor-in-realignment", "aldy/sam.py", "                    p -= 1\n                    o = self.gene[p]", "                    o = self.gene[p]"),
         ("minus-strand-mnp-anchor", "aldy/gene.py", "                        pos = pos + len(l) - 1", "                        pos = pos"),
